@@ -193,19 +193,28 @@ def c_rotation(ctx, it, cfg):
     ctx.prove('stiffness-in-use-is-the-rotated-stiffness', isinstance(got, ArrBase) and tuple(got.shape) == (3, 3, 3, 3) and and_(*[eq(got.get(*ix), want.get(*ix)) for ix in idx]))
 
 
-@REG.contract('precipitate-stiffness-defaults-to-the-current-matrix-stiffness', [EF + ':StrainEnergy.update', EF + ':StrainEnergy.setElasticTensor'])
+@REG.contract('precipitate-stiffness-defaults-to-the-current-matrix-stiffness', [EF + ':StrainEnergy.update', EF + ':StrainEnergy.setElasticTensor', EF + ':StrainEnergy.setRotationMatrix'],
+              configs=[dict(name=o, order=o) for o in ('no-rotation', 'stiffness-then-matrix-rotation', 'matrix-rotation-then-stiffness')])
 def c_prec_default(ctx, it, cfg):
-    """no precipitate stiffness given: the precipitate uses the matrix stiffness, also after the matrix stiffness is assigned again"""
+    """no precipitate stiffness given: the precipitate uses the matrix stiffness IN USE (the rotated one when the matrix is rotated, whichever was set first),
+    also after the matrix stiffness is assigned again"""
     m = it.load(EF).env
     stub_lebedev(ctx, it)
     se = m['StrainEnergy']()
     c_first, v1 = sym66(ctx, 'first', symmetric=True)
     c_second, v2 = sym66(ctx, 'second', symmetric=True)
     ctx.assume(and_(not_(eq(v1[(0, 0)], 0)), not_(eq(v2[(0, 0)], 0))))
+    rot = NP.array([[real(ctx, 'r%d%d' % (i, j)) for j in range(3)] for i in range(3)])
+    if cfg['order'] == 'matrix-rotation-then-stiffness':
+        se.setRotationMatrix(rot)
     se.setElasticTensor(c_first)
     se.setElasticTensor(c_second)
+    if cfg['order'] == 'stiffness-then-matrix-rotation':
+        se.setRotationMatrix(rot)
     cm, cp = se.params.fields['cMatrix_4th'], se.params.fields['cPrec_4th']
     want = m['convert2To4rankTensor'](c_second)
+    if cfg['order'] != 'no-rotation':
+        want = m['rotateRank4Tensor'](rot, want)
     idx = list(itertools.product(range(3), repeat=4))
     ctx.prove('matrix-stiffness-is-the-latest-one', and_(*[eq(cm.get(*ix), want.get(*ix)) for ix in idx]))
     ctx.prove('precipitate-stiffness-equals-the-current-matrix-stiffness', and_(*[eq(cp.get(*ix), cm.get(*ix)) for ix in idx]))
@@ -331,3 +340,30 @@ def c_inv4(ctx, it, cfg):
         ctx.prove('inverse%d%d%d%d-is-the-entry-of-the-6x6-inverse-of-this-matrix' % ix, eq(got.get(*ix), want.get(*ix)))
     tr = m['convert2To4rankTensor'](NP.linalg.inv(NP.array([[v[(j, i)] for j in range(6)] for i in range(6)])))
     ctx.prove('canary/inverse-of-the-transpose', eq(got.get(0, 0, 1, 1), tr.get(0, 0, 1, 1)), expect='refuted')
+
+
+@REG.contract('Bohm-reduction/fourth-rank-inverse-composed-with-the-tensor-is-the-identity-on-strains', [EF + ':invert4rankTensor', EF + ':convert4To2rankTensor', EF + ':convert2To4rankTensor'])
+def c_inv4_identity(ctx, it, cfg):
+    """the property: the Bohm energy reduces to the homogeneous-inclusion result when precipitate and matrix stiffness coincide.  With C_P = C_M Bohm's formula
+    (strainEnergyBohm) applies  invert4rankTensor(C_M) : C_M  to the eigenstrain; the reduction needs this to return the eigenstrain, for every symmetric eigenstrain
+    (shear components included).  Stated for a mechanically stable stiffness without normal-shear coupling (6x6 image diagonal-block: symbolic positive diagonal)."""
+    m = it.load(EF).env
+    a = [real(ctx, 'c%d%d' % (i, i), lambda v: v > 0) for i in range(6)]
+    A2 = NP.array([[a[i] if i == j else 0 for j in range(6)] for i in range(6)])
+    A4 = m['convert2To4rankTensor'](A2)
+    inv = m['invert4rankTensor'](A4)
+    # np.linalg.inv of a 6x6 matrix is opaque in the numpy model (assumed contract A.inv(A) = I, not expanded); for this diagonal matrix the contract
+    # determines the inverse uniquely: 1/c_ii on the diagonal, 0 elsewhere.  Stated here for the same (memoised) opaque inverse the code obtained.
+    X = NP.linalg.inv(m['convert4To2rankTensor'](A4))
+    ctx.assume(and_(*[eq(X.get(i, j) * (a[i] if i == j else 1), 1 if i == j else 0) for i in range(6) for j in range(6)]))
+    e = {}
+    for i in range(3):
+        for j in range(i, 3):
+            e[(i, j)] = e[(j, i)] = real(ctx, 'eps%d%d' % (i, j))
+    rng = list(itertools.product(range(3), repeat=2))
+
+    def contract42(T, s):
+        return {(i, j): sum((T.get(i, j, k, l) * s[(k, l)] for k, l in rng), 0) for i, j in rng}
+    back = contract42(inv, contract42(A4, e))          # inv : (C : eps), the same number as (inv : C) : eps
+    for ij in ((0, 0), (1, 1), (2, 2), (1, 2), (0, 2), (0, 1)):
+        ctx.prove('strain-%d%d-recovered' % ij, eq(back[ij], e[ij]))
